@@ -21,9 +21,9 @@ NOT_DECIDED = ("chunking independence itself (an equality between executions ove
 TRUSTED = ["clang 14 parser/CFG builder", "echse-facts extractor", "python rule engines in /verif/sa"]
 LEVEL_TEXT = ("Static verdict on the overrun and progress clauses of C10 for all byte strings and chunkings at once: bounded stash writes, "
               "cursor discipline, consumption of every processed line, progress of the pull loop, exhaustiveness of the component state "
-              "machine. Equality of the instruction sequence across chunkings is NOT decided.")
+              "machine. Equality of the instruction sequence across chunkings is NOT decided. Also: the end of a pushed piece decides nothing in the escape copier, and the start of a parse does not depend on the first piece's length.")
 LEVEL_NOTE = "Trusted: clang 14 front end/CFG, extractor, rule engines."
-TECHNIQUE = "static analysis: forward must-facts for bounded writes, shape rules on cursor updates, must-pass-through, fruitless-cycle loop analysis, switch exhaustiveness"
+TECHNIQUE = "static analysis: forward must-facts for bounded writes, shape rules on cursor updates, must-pass-through, fruitless-cycle loop analysis, switch exhaustiveness; condition-shape rules on the piece length"
 
 
 def r10_1(prog, rep):
